@@ -21,6 +21,7 @@ structure Net where
   fails    : Nat                       -- how many RPC failures the environment may still inject
   failed   : Option (Nat × Nat)        -- (caller, kind) of the injected failure; kind 0 = validate, 1 = run, 2 = consts
   schedOk  : List Nat                  -- per party: number of `Ok` replies to its schedule call
+  compileOk : Bool := true             -- does `compile_with_options` succeed? (the same program and constants at every party: the same outcome everywhere)
 deriving DecidableEq, Repr
 
 structure Setup where
@@ -79,7 +80,7 @@ def applyEff (su : Setup) (p : Nat) (net : Net) : Eff → Net
     -- the task sends `consts` to every other party and reports `InternalConstsSent` to its own actor once ALL replies have arrived
     { net with flight := ((List.range su.n).filter (· != p)).foldl (fun acc q => insertSorted (q, .consts p true) acc) net.flight,
                constsWait := net.constsWait.set p (su.n - 1) }
-  | .compile => { net with flight := insertSorted (p, .compiled true) net.flight, busy := net.busy.set p true }
+  | .compile => { net with flight := insertSorted (p, .compiled net.compileOk) net.flight, busy := net.busy.set p true }
   | .spawnMpcTask =>
     let ex := net.executing.set p true
     if ex.all id then
